@@ -1,4 +1,4 @@
-import PoxModel.Proofs.HandoffWake
+import PoxModel.Proofs.HandoffReady
 import PoxModel.Proofs.CoopLock
 import PoxModel.Model.HandoffSites
 import PoxModel.Generated.Sites
@@ -53,7 +53,7 @@ scheduler thread — anything except idling, the run loop itself, and a SyncTask
 def coopRunning (s : State) : Bool :=
   match s.s with
   | .userBody _ | .cycAppend _ | .stContains _ | .stFs _ _ | .rsPut _ | .rsPing _ | .cltPong _ | .cltPop _
-  | .cltCall _ _ => true
+  | .cltCall _ _ | .usContains _ _ | .usFs _ _ _ => true
   | _ => false
 
 /-- foreign thread `i` is inside `with scheduler.synchronized():` -/
@@ -83,24 +83,34 @@ theorem sync_mutual {threaded users progs} {s : State} (hr : Reachable threaded 
 
 /-! ## schedule() from foreign threads -/
 
-/-- **schedule_atmost1.**  A task that is woken through `Scheduler.schedule()` — by any number of foreign threads, at
-any moments — never occurs twice in the ready queue; and while the scheduler thread is executing it, or is about to put
-it (back) into the queue, it is not in the queue at all.  (`u < users.length`: the tasks that exist before the run and
-are only ever woken through `schedule()`; tasks parked in the select hub are outside this statement, see the limits.) -/
-theorem schedule_atmost1 {threaded users progs} {s : State} (hr : Reachable threaded users progs s) (u : TaskId)
-    (hu : u < users.length) : s.ready.count u ≤ 1 ∧ (holds s.s s.tasks u → u ∉ s.ready) := by
+/-- **schedule_atmost1.**  A task that is woken through `Scheduler.schedule()` — by any number of foreign threads (via
+ScheduleTasks) and by other cooperative tasks from inside their slices (the direct branch), at any moments — never
+occurs twice in the ready queue; and while the scheduler thread is executing it, or is about to put it (back) into the
+queue, it is not in the queue at all.  Hypothesis `usersOk`: no task's program schedules the task itself (the
+documented exception of `schedule()`, see `schedule_self_twice`).  (`u < users.length`: the tasks that exist before
+the run and are only ever woken through `schedule()`; tasks parked in the select hub are outside this statement.) -/
+theorem schedule_atmost1 {threaded users progs} {s : State} (hok : usersOk users)
+    (hr : Reachable threaded users progs s) (u : TaskId) (hu : u < users.length) :
+    s.ready.count u ≤ 1 ∧ (holds s.s s.tasks u → u ∉ s.ready) := by
   have hn := reach_nUsers hr
-  exact ⟨(reach_U hr).cnt u (by rw [hn]; exact hu), (reach_U hr).hold u (by rw [hn]; exact hu)⟩
+  exact ⟨(reach_U hok hr).cnt u (by rw [hn]; exact hu), (reach_U hok hr).hold u (by rw [hn]; exact hu)⟩
+
+/-- the hypothesis is needed, exactly as the docstring of `schedule()` says: a task that schedules *itself* and then
+yields 0 is in the ready queue twice (`if task in self._ready` cannot see the running task). -/
+theorem schedule_self_twice :
+    (run (Handoff.init false [[.sched 0, .yield0]] [[.schedule 0]])
+      [2, 2, 2, 2, 2, 0, 0, 0, 0, 0, 0, 0, 0, 0, 0, 0, 0, 0, 0]).ready = [0, 0] := by decide
 
 /-- **no wake is lost.**  Whenever a ScheduleTask's slice ends (the scheduler thread returns to its loop from
 `ScheduleTask.run`), the task it was created for is in the ready queue — either it was there already, or it has just
 been put at the head.  (The ScheduleTask itself cannot be lost: the foreign thread's `schedule()` returns only after
 the `_ready.append(st)`, and only the scheduler thread ever removes from `_ready`.) -/
-theorem schedule_wake_kept {threaded users progs} {s s' : State} (hr : Reachable threaded users progs s)
+theorem schedule_wake_kept {threaded users progs} {s s' : State} (hok : usersOk users)
+    (hr : Reachable threaded users progs s)
     (hs : step s 0 = some s') (st tg : TaskId) (r : Bool)
     (hpc : s.s = .stContains st ∨ ∃ p, s.s = .stFs st p) (hdone : s'.s = .runLen)
     (hl : s.tasks[st]? = some (.st tg r)) : tg ∈ s'.ready :=
-  st_done_in_ready (reach_U hr) hs st tg r hpc hdone hl
+  st_done_in_ready (reach_U hok hr) hs st tg r hpc hdone hl
 
 /-! ## wake-ups do not depend on the polling time-out -/
 
@@ -139,6 +149,30 @@ theorem lock_excl (flag : Bool) (ops : List Pox.CoopLock.Op) (hd : ∀ o ∈ ops
   refine ⟨h.excl, ?_, h.noIdle⟩
   rw [h.excl]
   rcases s.lock.locked with _ | (_ | t) <;> simp [holderList]
+
+open Pox.CoopLock in
+/-- **lock_excl_multi.**  The same for any number of locks and any number of tasks: for every sequence of operations
+`(lock index, operation)` — a task parked on one lock issues nothing on any lock — and every lock `j`: the tasks that
+were handed lock `j` are exactly the task it refers to (at most one), and nobody waits on it while it is free. -/
+theorem lock_excl_multi (flags : List Bool) (ops : List (Nat × Pox.CoopLock.Op))
+    (hd : ∀ p ∈ ops, p.2.disciplined = true) (j : Nat) (l : Lock)
+    (hl : (mrun (minit flags) ops).locks[j]? = some l) :
+    let s := mrun (minit flags) ops
+    let holders := (s.believers.filter (·.2 = j)).map (·.1)
+    holders = holderList l.locked ∧ holders.length ≤ 1 ∧ (l.locked = none → l.waiting = []) := by
+  intro s holders
+  have h := mrun_inv ops _ (minit_inv flags) hd j { lock := l, believers := holders } (by simp [MSys.proj, s, hl, holders])
+  have he : holders = holderList l.locked := h.excl
+  refine ⟨he, ?_, h.noIdle⟩
+  rw [he]
+  rcases l.locked with _ | (_ | t) <;> simp [holderList]
+
+open Pox.CoopLock in
+/-- two locks, three tasks: task 1 holds lock 0 and waits for lock 1 held by task 2; task 3 waits for lock 0; task 2
+releases lock 1 (handed to 1), task 1 releases lock 0 (handed to 3) -/
+example : (mrun (minit [false, false])
+    [(0, .acq 1 true), (1, .acq 2 true), (1, .acq 1 true), (0, .acq 3 true), (0, .acq 1 false), (1, .rel 2 1), (0, .rel 1 3)]).believers
+    = [(1, 1), (3, 0)] := by decide
 
 open Pox.CoopLock in
 /-- (2) a release hands the lock to exactly one waiter if there is any (the one `set.pop()` returned), which becomes
@@ -217,5 +251,16 @@ def witnessTwice : List Tid :=
   [2, 2, 2, 2, 2, 3, 3, 3, 3, 3, 0, 0, 0, 0, 0, 0]
 example : (runStrict (Handoff.init false [[]] [[.schedule 0], [.schedule 0]]) witnessTwice).map
     (fun s => (s.ready, s.s)) = some ([0, 2], .runLen) := by decide
+
+/-- a cooperative task waking another one from inside its slice (direct branch of `schedule`), while a foreign thread
+wakes the first: reachable, `usersOk` holds, and the second task ends up queued once -/
+example : usersOk [[.sched 1, .yieldF], []] := by
+  intro t prog h
+  match t, h with
+  | 0, h => cases h; decide
+  | 1, h => cases h; decide
+  | t + 2, h => cases h
+example : (runStrict (Handoff.init true [[.sched 1, .yieldF], []] [[.schedule 0]])
+    [2, 2, 2, 2, 2, 0, 0, 0, 0, 0, 0, 0, 0, 0, 0, 0, 0, 0]).map (fun s => (s.ready, s.slices)) = some ([1], [0]) := by decide
 
 end Pox.C07
